@@ -38,7 +38,8 @@ Fixpoint ends_with_bslash (l : str) : bool :=
 (*          while (endpos.lineno-1 > last_node_lineno and
                    _is_comment_or_blank(text[endpos.lineno-1]) and
                    (not text[endpos.lineno-2].endswith("\\") or
-                    _is_comment_or_blank(text[endpos.lineno-2]))):
+                    (endpos.lineno-2 > last_node_lineno and
+                     _is_comment_or_blank(text[endpos.lineno-2])))):
                 endpos = FilePos(endpos.lineno-1, 1)
    walk_back t lastl fuel L = the final endpos.lineno, None = IndexError from text[...]
    or fuel exhausted (impossible for fuel > L: every iteration decrements L and needs L-1 > lastl;
@@ -55,7 +56,7 @@ Fixpoint walk_back (t : text) (lastl : nat) (fuel : nat) (L : nat) : option nat 
               match get_line t (L - 2) with
               | None => None
               | Some l2 =>
-                  if negb (ends_with_bslash l2) || is_comment_or_blank l2
+                  if negb (ends_with_bslash l2) || ((lastl <? L - 2) && is_comment_or_blank l2)
                   then walk_back t lastl f (L - 1)
                   else Some L
               end
@@ -83,7 +84,8 @@ Definition piece := (option node * text)%type.
                 if (endpos.lineno > last_node_lineno and _is_comment_or_blank(text[endpos.lineno])):
                     assert startpos.lineno < endpos.lineno
                     if (not text[endpos.lineno-1].endswith("\\") or
-                        _is_comment_or_blank(text[endpos.lineno-1])):         (F37)
+                        (endpos.lineno-1 > last_node_lineno and
+                         _is_comment_or_blank(text[endpos.lineno-1]))):       (F37)
                         endpos = FilePos(endpos.lineno,1)
         if endpos.colno == 1:
             while ...   (walk_back)
@@ -104,7 +106,7 @@ Definition node_endpos (t : text) (n : node) (next : pos) : option pos :=
               if negb (lineno (n_start n) <? lineno next) then None
               else match get_line t (lineno next - 1) with
                    | None => None
-                   | Some p => if negb (ends_with_bslash p) || is_comment_or_blank p
+                   | Some p => if negb (ends_with_bslash p) || ((lastl <? lineno next - 1) && is_comment_or_blank p)
                                then Some (mkPos (lineno next) 1) else Some next
                    end
             else Some next
